@@ -23,9 +23,13 @@ EXTENDS PdfFile, TLC
 CONSTANTS OFFBYONE,   \* TRUE: model the "fix an error seen in some PDF files"
                       \* of decodeXRefSection (subsection starting at 1 whose
                       \* first entry is 0000000000 65535 f is shifted down)
-          NULLZERO    \* TRUE: an indirect /Length that resolves to the null
+          NULLZERO,   \* TRUE: an indirect /Length that resolves to the null
                       \* object is taken as 0 (reader.go safeGetInteger before
                       \* commit 8dab642); FALSE: it is unknown
+          KEYGEN0,    \* TRUE (defective variant): the reader derives the object
+                      \* key with generation 0 whatever the object's generation
+          DECRYPTMEMBERS  \* TRUE (defective variant): the reader decrypts the
+                      \* strings of object-stream members a second time
 
 Kinds   == {"table", "stream", "hybrid"}
 OpNames == {"keep",    \* the revision does not touch the object
@@ -188,6 +192,41 @@ RefPhys(h, n, g) ==
      ELSE [kind |-> "obj", off |-> Off(n, r)]
 
 ---------------------------------------------------------------------------
+(* Encryption (7.6.2, 7.6.3): which key protects what.                       *)
+(* With the standard security handler of revision 2-4 (RC4, AESV2) the key   *)
+(* of the strings and of the stream data of an indirect object is a function *)
+(* of the file key, the object number and the *generation number* of that    *)
+(* object (Algorithm 1); with revision 6 (AESV3) the file key is used for    *)
+(* every object (Algorithm 1.A).  Strings inside the members of an object    *)
+(* stream are not encrypted individually: the container's data are, under    *)
+(* the key of the container (generation 0).  Cross-reference streams and the *)
+(* encryption dictionary are not encrypted at all (they are not among the    *)
+(* model's objects; the serialiser writes them in the clear and the real     *)
+(* reader is run on that).  A key is represented by what it depends on.      *)
+
+KeyScopes == {"none", "object", "file"}     \* no encryption; R 2-4; R 6
+\* the renderings of the harness and their key scope
+CryptNames == {"none", "rc4-40", "rc4-128", "rc4-cf", "aesv2", "aesv3"}
+ScopeOf(crypt) == IF crypt = "none" THEN "none" ELSE IF crypt = "aesv3" THEN "file" ELSE "object"
+Plain == <<"plain">>
+ObjKey(scope, n, g) == IF scope = "none" THEN Plain
+                       ELSE IF scope = "file" THEN <<"file">>
+                       ELSE <<"obj", n, g>>
+
+\* the key under which the writer stored the strings / data of a physical
+\* object (o is an element of file.objects): that of its own header
+WrittenKey(scope, o) == ObjKey(scope, o.n, o.g)
+
+\* Reference: a value is readable iff the reader uses, for the object a
+\* reference <<n, g>> resolves to, the key of <<n, g>>; for a compressed object
+\* no key for its strings and the key of <<container, 0>> for the container
+RefPhysK(h, n, g, scope) ==
+  LET p == RefPhys(h, n, g)
+  IN IF p = Null THEN Null
+     ELSE IF p.kind = "mem" THEN p @@ [key |-> Plain, ckey |-> ObjKey(scope, p.stm, 0)]
+     ELSE p @@ [key |-> ObjKey(scope, n, g)]
+
+---------------------------------------------------------------------------
 (* Implementation shape: xref.go                                            *)
 
 \* is entry index idx the first of a subsection, and which
@@ -240,6 +279,19 @@ ImplGet(file, x, n, g) ==
                     IN IF o = Null THEN Error
                        ELSE IF o.n # n \/ o.g # g THEN Error    \* "xref corrupted"
                        ELSE [kind |-> "obj", off |-> e.off]
+
+\* the keys the reader uses: scanner.go ReadIndirectObject takes the object
+\* number and generation from the `N G obj' header it finds at the offset
+\* (s.encRef = ref); reader.go getObjStm switches decryption off for the
+\* members of an encrypted container (enc = nil)
+ImplGetK(file, x, n, g, scope) ==
+  LET p == ImplGet(file, x, n, g)
+  IN IF p = Null \/ p = Error THEN p
+     ELSE IF p.kind = "mem"
+       THEN p @@ [key  |-> IF DECRYPTMEMBERS THEN ObjKey(scope, n, 0) ELSE Plain,
+                  ckey |-> ObjKey(scope, p.stm, 0)]
+       ELSE LET o == ObjectAt(file, p.off)
+            IN p @@ [key |-> ObjKey(scope, o.n, IF KEYGEN0 THEN 0 ELSE o.g)]
 
 ---------------------------------------------------------------------------
 (* Stream extent (7.3.8): scanner.go ReadStreamData, byte level.             *)
